@@ -9,12 +9,16 @@ file and on its own output) and
   * correspondence: the output, parsed field by field, equals `WhVerif.C13.unphase` (the function the theorems
     are about) applied to the parsed input; when the CLI raises, the faithful model of HEAD's loop
     (`unphaseCur`) must predict exactly that exception class (this is how F2 is recognised as F2).
-Header (`unphase_header`): the `##` lines of the output equal the Lean model of the header function (`c13.header`: HEAD's
-"remove the first `##phasing` line" and the repaired "remove every one"); independent text oracle: no HP/PQ/PS FORMAT
-definition left, every other input line still there in the same order, and the second application reproduces the first
-output byte for byte (header included).  Input forms: path, stdin (`-`), bgzipped file — same output.
 History cases: a simulated scenario is phased with the real `whatshap phase`; unphase(phased) must give the same
 data lines as unphase(original), and a second unphase must change nothing.
+Since round E04 also: the header (`unphaseHeader`: lines of the output in order, once and twice; no phase-tag definition left,
+no other line lost), idempotence judged on the whole output including the header (F61), every 4th file also through
+`whatshap unphase -` (standard input), and the bridge `ofC04` from the C04 record model (`c13.of_c04`) on every input.
+Since round E12 also: header variants (0-3 `##phasing` lines anywhere, `##PHASING`, INFO fields named PS/HP, definitions of
+unused phase tags left out), the kept header lines compared as a list (order and multiplicity), bgzipped input, and *edit
+pairs*: a generated file and a random phase-only edit of it (alleles of complete genotypes permuted, separators, HP/PQ/PS and
+`##phasing` added / changed / deleted, every ploidy and call shape) — the model's executable checker `editB` certifies the
+edit (`edit_checker_iff`) and the real `whatshap unphase` must give the same records for both (`unphase_of_checked_edit`).
 """
 import collections, concurrent.futures, json, os, re, shutil, subprocess
 
@@ -22,30 +26,27 @@ import pysam
 
 from harness.gen import sim
 from harness.gen import c13_vcf as G
+from harness.gen import c04_file as F4
 
 RULE = ("case = one generated VCF (1-3 contigs, 0-4 samples, up to 14*scale records; ploidy 1-5 per call, '.', "
         "partially missing, phased/unphased/mixed separators, records without GT, FORMAT fields DP GQ AD FT PS PQ HP in "
-        "random order, dropped trailing fields, multi-ALT/indel/symbolic ALT; header with 0-3 ##phasing lines anywhere, "
-        "##PHASING, INFO fields named PS/HP, definitions of unused phase tags left out; given as path, on stdin or bgzipped) "
-        "run through `whatshap unphase` twice, or one phase->unphase->unphase history on a simulated scenario, or a file and a "
-        "random phase-only edit of it (alleles of complete genotypes permuted, separators, HP/PQ/PS and ##phasing added / "
-        "changed / deleted; every ploidy) both unphased; non-trivial iff the file given to unphase has >= 1 data "
+        "random order, dropped trailing fields, multi-ALT/indel/symbolic ALT) run through `whatshap unphase` twice, or one "
+        "phase->unphase->unphase history on a simulated scenario; non-trivial iff the file given to unphase has >= 1 data "
         "line and >= 1 phased genotype or HP/PQ/PS value; distinct = distinct input text")
 MANIFEST = dict(
     text="Lean 4 theorems about a model of run_unphase's record loop written with Python primitives that raise where "
          "CPython/pysam raise (HEAD's loop and the loop after fixes/F2.patch): the repaired loop is total and equals the "
          "specification function, which leaves no phase information, preserves allele multisets and every other field, is "
-         "idempotent and is invariant under phase-only edits (an executable checker decides that relation and the check "
-         "applies it to its own edits); the pre-F2 loop raises exactly on the characterised call shapes; unphase_header "
-         "removes the three FORMAT definitions and (HEAD: the first, repaired: every) ##phasing line and nothing else, keeps "
-         "every definition the output records need, and the whole file function is idempotent (HEAD: iff <= 1 ##phasing line). "
+         "idempotent and is invariant under phase-only edits; HEAD's loop raises exactly on the characterised call shapes. "
          "Tied to the working tree by running the real CLI on generated VCFs and comparing field by field with the model, "
-         "plus a text-level oracle of the property on every (input, output) pair and phase/unphase/unphase histories",
+         "plus a text-level oracle of the property on every (input, output) pair and phase/unphase/unphase histories; "
+         "unphase_header is modelled (only phase lines/definitions go, idempotent with a single phasing line; F61 witness), "
+         "and the edit of C04's writer model is proved to be a phase-only edit (unphase after whatshap phase = unphase)",
     design_ref="DESIGN.md §5 C13",
     note="trusted: Lean kernel, axioms ⊆ {propext, Classical.choice, Quot.sound}; hand-written model; htslib/pysam parsing "
          "and serialisation are outside the model (the harness reads input and output as plain text); well-formed = GT first "
-         "in FORMAT, FORMAT column present when the header has samples; htslib drops verbatim repeats of generic header "
-         "lines while parsing (mirrored when the header is handed to the model)",
+         "in FORMAT, FORMAT column present when the header has samples; header lines are compared by (key, ID) / (key, text); the "
+         "phase->unphase clause is proved across the C04 writer model (unphase_after_whatshap_phase) for runs without genotype changes",
     technique="Lean 4 model with exception-raising primitives + totality/idempotence/permutation proofs + CLI differential run",
 )
 ASSUMPTIONS = [
@@ -124,45 +125,59 @@ def oracle(in_text, out_text):
     return fails
 
 
-def header_oracle(in_text, out_text):
-    """independent of the Lean model: the three FORMAT definitions are gone, every other line (but `##phasing`) is kept in order"""
-    fails = []
+def header_observations(ctx, in_text, out_text):
     h_in = [l for l in in_text.split("\n") if l.startswith("##")]
     h_out = [l for l in out_text.split("\n") if l.startswith("##")]
-    is_def = lambda l: any(l.startswith(f"##FORMAT=<ID={t},") for t in G.PHASE_TAGS)
-    removable = lambda l: l.startswith("##phasing=") or is_def(l)
+    removable = lambda l: l.startswith("##phasing=") or any(l.startswith(f"##FORMAT=<ID={t},") for t in G.PHASE_TAGS)
+    for l in h_in:
+        if not removable(l) and l not in h_out:
+            ctx.observe("header line of the input missing in the output: " + l[:60])
     for l in h_out:
-        if is_def(l):
-            fails.append(("the output header still defines a phase tag: " + l[:40], "header-phase-definition-left"))
-    kept_in = [l for l in h_in if not removable(l)]
-    kept_out = [l for l in h_out if not removable(l)]
-    if kept_in != kept_out:
-        lost = [l for l in kept_in if l not in kept_out]
-        new = [l for l in kept_out if l not in kept_in]
-        fails.append((f"header lines other than ##phasing / HP,PQ,PS definitions changed: lost {lost[:3]}, new {new[:3]}"
-                      + ("" if lost or new else " (order)"), "header-other-lines-changed"))
-    return fails
+        if removable(l):
+            ctx.observe("header still declares phase information: " + l[:40])
 
 
-F76 = "F76-unphase-not-idempotent-second-phasing-header-line"
+def hlines(text):
+    """header lines as the model's `HLine`s: structured lines by (key, ID), other lines by (key, text)"""
+    out, seen = [], set()
+    for l in text.split("\n"):
+        if not l.startswith("##"):
+            continue
+        m = re.match(r"##([^=]+)=(.*)$", l)
+        if not m:
+            continue
+        key, val = m.group(1), m.group(2)
+        mid = re.match(r"<ID=([^,>]+)", val)
+        if mid:
+            out.append({"key": key, "id": mid.group(1), "text": ""})
+        else:
+            if l in seen:          # htslib drops a generic line that repeats an earlier one verbatim (before whatshap sees it)
+                continue
+            seen.add(l)
+            out.append({"key": key, "id": None, "text": val})
+    return out
 
 
-def run_unphase(overlay, path, text, mode):
-    """`whatshap unphase` on a path, on stdin ('-') or on a bgzipped copy; (rc, stdout, stderr)"""
-    if mode == "gz":
-        gz = path + ".gz"
-        pysam.tabix_compress(path, gz, force=True)
-        path = gz
-    if mode != "stdin":
-        rc, out, err, _ = sim.whatshap(["unphase", path], overlay)
-        return rc, out, err
-    if not os.path.exists(os.path.join(overlay, "whatshap", "__init__.py")):
-        raise RuntimeError("overlay %s disappeared" % overlay)
+def hkey(h):
+    return (h["key"], h["id"], h["text"])
+
+
+def unphase_stdin(overlay, text):
+    """`whatshap unphase -` reading the VCF from standard input"""
     env = dict(os.environ)
     env["PYTHONPATH"] = overlay
     env.pop("WHATSHAP_VERIF_TRACE", None)
-    r = subprocess.run([sim.PY, "-m", "whatshap", "unphase", "-"], env=env, input=text, capture_output=True, text=True, timeout=600)
+    r = subprocess.run([sim.PY, "-m", "whatshap", "unphase", "-"], input=text, env=env, capture_output=True, text=True, timeout=600)
     return r.returncode, r.stdout, r.stderr
+
+
+def c04_records(samples, recs):
+    """records of parse_vcf_text in the JSON of the C04 model (for the bridge `ofC04`)"""
+    out = []
+    for r in recs:
+        fmt = r["format"]
+        out.append(F4.text_frec(r["fixed"], ":".join(fmt) if fmt else None, [":".join(c) for c in r["calls"]], samples))
+    return out
 
 
 def scenario_case(rng):
@@ -219,8 +234,9 @@ def _run(ctx, rng, wd):
 
     pool = concurrent.futures.ThreadPoolExecutor(WORKERS)
 
-    def unphase(path, text="", mode="path"):
-        return run_unphase(ctx.overlay, path, text, mode)
+    def unphase(path):
+        rc, out, err, _ = sim.whatshap(["unphase", path], ctx.overlay)
+        return rc, out, err
 
     # ---- stage 1: prepare inputs (histories: run `whatshap phase`), all CLI work in a small thread pool
     def prepare(idx_case):
@@ -240,7 +256,6 @@ def _run(ctx, rng, wd):
             p = os.path.join(d, "in.vcf")
             open(p, "w").write(text)
             res["inputs"] = [("file", p, text)]
-            res["mode"] = case.get("input", "path")
         else:
             fa, bam, vcf, phased = (os.path.join(d, n) for n in ("ref.fasta", "in.bam", "in.vcf", "phased.vcf"))
             sim.write_fasta(fa, case["fasta"])
@@ -257,16 +272,20 @@ def _run(ctx, rng, wd):
         # unphase every input, then unphase the output again
         res["runs"] = []
         for label, p, text in res["inputs"]:
-            mode = res.get("mode", "path")
-            rc, out, err = unphase(p, text, mode)
-            run = {"label": label, "in_text": text, "rc": rc, "out": out, "err": err, "mode": mode}
-            if mode != "path":
-                run["plain"] = unphase(p)          # the same file given as a path must give the same output
+            rc, out, err = unphase(p)
+            run = {"label": label, "in_text": text, "rc": rc, "out": out, "err": err}
             if rc == 0:
                 p2 = p + ".unphased.vcf"
                 open(p2, "w").write(out)
                 rc2, out2, err2 = unphase(p2)
                 run.update(rc2=rc2, out2=out2, err2=err2)
+                if idx % 4 == 0:
+                    rc3, out3, err3 = unphase_stdin(ctx.overlay, text)
+                    run.update(rc3=rc3, out3=out3, err3=err3)
+                if case.get("input") == "gz":           # the same file bgzipped
+                    pysam.tabix_compress(p, p + ".gz", force=True)
+                    rc4, out4, err4 = unphase(p + ".gz")
+                    run.update(rc4=rc4, out4=out4, err4=err4)
             res["runs"].append(run)
         shutil.rmtree(d, ignore_errors=True)
         return res
@@ -280,17 +299,17 @@ def _run(ctx, rng, wd):
         for ri, run in enumerate(res["runs"]):
             _, _, recs = G.parse_vcf_text(run["in_text"])
             run["recs"] = recs
-            reqs.append({"op": "c13.unphase", "records": G.model_records(recs)})
+            _, samples, _ = G.parse_vcf_text(run["in_text"])
+            reqs.append(({"op": "c13.unphase", "records": G.model_records(recs)},
+                         {"op": "c13.header", "header": hlines(run["in_text"])},
+                         {"op": "c13.of_c04", "records": c04_records(samples, recs)}))
             where.append((ci, ri))
-    # one request per round trip: requests carry whole files, 200 of them would overfill the pipe buffers
-    answers = [ctx.model.ask_many([r])[0] for r in reqs]
-    for (ci, ri), ans in zip(where, answers):
+    # one file per round trip: requests carry whole files, 200 of them would overfill the pipe buffers
+    answers = [[ctx.model.ask_many([r])[0] for r in rs] for rs in reqs]
+    for (ci, ri), (ans, hans, bans) in zip(where, answers):
         results[ci]["runs"][ri]["model"] = ans
-    for res in results:
-        for run in res["runs"]:
-            run["hmodel"] = ctx.model.ask_many([{"op": "c13.header", "lines": G.header_model_lines(run["in_text"])}])[0]
-            if run["rc"] == 0:
-                run["hmodel2"] = ctx.model.ask_many([{"op": "c13.header", "lines": G.header_model_lines(run["out"])}])[0]
+        results[ci]["runs"][ri]["model_header"] = hans
+        results[ci]["runs"][ri]["model_bridge"] = bans
 
     # ---- stage 3: judge
     for case, res in zip(cases, results):
@@ -339,33 +358,68 @@ def _run(ctx, rng, wd):
             # oracle
             for what, key in oracle(run["in_text"], run["out"]):
                 ctx.fail(tag + what, case, key=key)
-            for what, key in header_oracle(run["in_text"], run["out"]):
-                ctx.fail(tag + what, case, key=key)
-            # header: correspondence with the model of unphase_header (HEAD: first ##phasing line only; repaired: all)
-            h_out = [l for l in run["out"].split("\n") if l.startswith("##")]
-            hm = run["hmodel"]
-            n_phasing = len({l for l in run["in_text"].split("\n") if l.startswith("##phasing=")})
-            ctx.dist("phasing_header_lines", min(n_phasing, 3))
-            ctx.dist("input_mode", run.get("mode", "path"))
-            if "error" in hm:
-                ctx.disagree("c13.header", case, "header not accepted by the driver", hm)
-            elif h_out != hm["cur"] and h_out != hm["fix"]:
-                first = next((i for i, (x, y) in enumerate(zip(h_out, hm["cur"])) if x != y), min(len(h_out), len(hm["cur"])))
-                ctx.disagree("c13.header", case, {"first_differing_line": first, "impl": h_out[first:first + 2]},
-                             {"model_HEAD": hm["cur"][first:first + 2], "model_repaired": hm["fix"][first:first + 2]})
-            if run.get("plain") is not None and (run["plain"][0] != 0 or run["plain"][1] != run["out"]):
-                ctx.fail(tag + f"input given as {run['mode']} and as a path give different outputs", case, key="input-form-matters")
+            header_observations(ctx, run["in_text"], run["out"])
+            mh = run["model_header"]
+            h_in, h_out = hlines(run["in_text"]), hlines(run["out"])
+            ctx.dist("phasing_lines", sum(1 for h in h_in if h["key"] == "phasing"))
+            # header, independent of the model: no definition of a phase tag is left, every other line of the input survives
+            for h in h_out:
+                if h["key"] == "FORMAT" and h["id"] in G.PHASE_TAGS:
+                    ctx.fail(tag + f"the output header still defines FORMAT {h['id']}", case, key="header-phase-format-left")
+            for h in h_in:
+                if h["key"] != "phasing" and not (h["key"] == "FORMAT" and h["id"] in G.PHASE_TAGS) and hkey(h) not in map(hkey, h_out):
+                    ctx.fail(tag + f"header line {h['key']} {h['id'] or h['text']} of the input is missing in the output", case,
+                             key="header-line-lost")
+            # header, correspondence: the lines in order (`unphaseHeader`)
+            if "cur" not in mh:
+                ctx.disagree("c13.header", case, "input header not accepted by the driver", mh)
+            elif [hkey(h) for h in h_out] not in ([hkey(h) for h in mh["cur"]], [hkey(h) for h in mh["fix"]]):
+                # admissible: the code as it is (first `phasing` line removed) or after fixes/F61.patch (all of them)
+                ctx.disagree("c13.header", case, [hkey(h) for h in h_out], [hkey(h) for h in mh["cur"]])
             if run.get("rc2") != 0:
                 ctx.fail(tag + "second application of unphase fails: " + err_class(run.get("err2", "")), case, key="second-unphase-raises")
             elif data_lines(run["out2"]) != data_lines(run["out"]):
                 ctx.fail(tag + "unphase is not idempotent: second application changes data lines", case, key="not-idempotent")
             elif run["out2"] != run["out"]:
-                h2 = [l for l in run["out2"].split("\n") if l.startswith("##")]
-                gone = [l for l in h_out if l not in h2]
-                explained = "error" not in hm and h_out == hm["cur"] and hm["cur"] != hm["fix"] and h2 == run.get("hmodel2", {}).get("cur")
-                ctx.fail(tag + f"unphase is not idempotent: the second application changes the header (removes {gone[:2]}); "
-                               f"unphase_header removes only the first of {n_phasing} ##phasing lines", case,
-                         key=F76 if explained and all(l.startswith("##phasing=") for l in gone) else "not-idempotent-header")
+                lost = [hkey(h) for h in hlines(run["out"]) if hkey(h) not in [hkey(x) for x in hlines(run["out2"])]]
+                only_phasing = bool(lost) and all(k == "phasing" for k, _, _ in lost)
+                ctx.fail(tag + "unphase is not idempotent: the second application changes the header (lines removed: "
+                         + "; ".join(f"##{k}={t or i}" for k, i, t in lost) + ")", case,
+                         key="F61-second-phasing-line" if only_phasing else "not-idempotent-header")
+            if run.get("rc2") == 0 and "cur2" in mh and [hkey(h) for h in hlines(run["out2"])] not in (
+                    [hkey(h) for h in mh["cur2"]], [hkey(h) for h in mh["fix"]]):
+                ctx.disagree("c13.header(twice)", case, [hkey(h) for h in hlines(run["out2"])], [hkey(h) for h in mh["cur2"]])
+            # standard input instead of a path
+            if "rc3" in run:
+                ctx.dist("stdin", "ok" if run["rc3"] == 0 else "fails")
+                if run["rc3"] != 0:
+                    ctx.fail(tag + "`whatshap unphase -` (standard input) fails with " + err_class(run["err3"]) + " on a file it accepts by path",
+                             case, key="stdin-unphase-raises")
+                elif run["out3"] != run["out"]:
+                    ctx.fail(tag + "`whatshap unphase -` (standard input) writes something else than `whatshap unphase FILE`", case,
+                             key="stdin-differs")
+            if "rc4" in run:
+                ctx.dist("gz", "ok" if run["rc4"] == 0 else "fails")
+                if run["rc4"] != 0 or run["out4"] != run["out"]:
+                    ctx.fail(tag + "the bgzipped file gives " + ("an error" if run["rc4"] else "a different output") + " than the plain file",
+                             case, key="gz-differs")
+            # header, independent of the model and order-sensitive: the lines unphase has no business with are the same list
+            keep = lambda t: [l for l in t.split("\n") if l.startswith("##") and not l.startswith("##phasing=")
+                              and not any(l.startswith(f"##FORMAT=<ID={x},") for x in G.PHASE_TAGS)]
+            k_in, k_out = keep(run["in_text"]), keep(run["out"])
+            if k_in != k_out and sorted(k_in) == sorted(k_out):
+                ctx.fail(tag + "the header lines that are kept come out in a different order", case, key="header-order-changed")
+            # the bridge from the C04 record model: same records, same result
+            mb = run["model_bridge"]
+            if "plain" not in mb:
+                ctx.disagree("c13.of_c04", case, "input not accepted by the driver", mb)
+            else:
+                if mb["plain"] != G.model_records(recs):
+                    first = next((i for i, (x, y) in enumerate(zip(mb["plain"], G.model_records(recs))) if x != y), None)
+                    ctx.disagree("c13.of_c04(plain)", case, {"record": first, "parsed": G.model_records(recs)[first] if first is not None else len(recs)},
+                                 {"bridge": mb["plain"][first] if first is not None else len(mb["plain"])})
+                if mb["unphased"] != model["spec"]:
+                    ctx.disagree("c13.of_c04(unphased)", case, "unphase of the parsed records", "differs from unphase of the bridged records")
             # correspondence with the specification function of the theorems
             _, _, out_recs = G.parse_vcf_text(run["out"])
             impl = G.model_records(out_recs)
